@@ -21,7 +21,7 @@ import (
 )
 
 type fakeConn struct {
-	k      int
+	k       int
 	onClose func(int)
 }
 
@@ -36,18 +36,18 @@ type event struct {
 }
 
 type simCase struct {
-	Name     string   `json:"name"`
-	N        int      `json:"n"`
-	Workers  int      `json:"workers"`
-	DelayMs  int      `json:"delay_ms"`
-	TimeoutMs int     `json:"timeout_ms"`
-	CancelMs int      `json:"cancel_ms"` // -1: never
-	Require  bool     `json:"require"`   // RequireECH without any config list: targets are refused before dialling
-	Script   []string `json:"script"`    // per target: ok:<ms> | fail:<ms> | hang
-	Trace    []string `json:"trace"`     // observable events, in order
-	Monitor  string   `json:"monitor"`   // "" or the first violated monitor
-	Leak     bool     `json:"leak"`
-	Timed    []string `json:"timed"` // the same events with their virtual time in ms
+	Name      string   `json:"name"`
+	N         int      `json:"n"`
+	Workers   int      `json:"workers"`
+	DelayMs   int      `json:"delay_ms"`
+	TimeoutMs int      `json:"timeout_ms"`
+	CancelMs  int      `json:"cancel_ms"` // -1: never
+	Require   bool     `json:"require"`   // RequireECH without any config list: targets are refused before dialling
+	Script    []string `json:"script"`    // per target: ok:<ms> | fail:<ms> | hang
+	Trace     []string `json:"trace"`     // observable events, in order
+	Monitor   string   `json:"monitor"`   // "" or the first violated monitor
+	Leak      bool     `json:"leak"`
+	Timed     []string `json:"timed"` // the same events with their virtual time in ms
 }
 
 func runCase(t *testing.T, c *simCase) {
@@ -92,11 +92,18 @@ func runCase(t *testing.T, c *simCase) {
 			}
 			parts := strings.Split(sc, ":")
 			ms, _ := strconv.Atoi(parts[1])
-			select {
-			case <-time.After(time.Duration(ms) * time.Millisecond):
-			case <-ctx.Done():
-				add("finish-err", k, false)
-				return nil, ctx.Err()
+			if strings.HasPrefix(parts[0], "s") {
+				// a stubborn attempt: a DialFunc stuck in a step that cannot be interrupted takes its time
+				// whatever happens to its context (sok: then succeeds, sfail: then fails)
+				time.Sleep(time.Duration(ms) * time.Millisecond)
+				parts[0] = parts[0][1:]
+			} else {
+				select {
+				case <-time.After(time.Duration(ms) * time.Millisecond):
+				case <-ctx.Done():
+					add("finish-err", k, false)
+					return nil, ctx.Err()
+				}
 			}
 			if parts[0] == "ok" {
 				add("finish-ok", k, false)
@@ -260,7 +267,8 @@ func monitor(c0 *simCase, evs []event, retT int64) string {
 			}
 		case e.Kind == "finish-ok" || e.Kind == "finish-err":
 			inflight--
-			if e.T-startT[e.K] > int64(c.TimeoutMs) {
+			if e.T-startT[e.K] > int64(c.TimeoutMs) && !strings.HasPrefix(c.Script[e.K], "s") {
+				// (a stubborn DialFunc overruns by its own fault; Dial's part is the deadline on the context)
 				return fmt.Sprintf("attempt %d ran %dms, Timeout is %dms", e.K, e.T-startT[e.K], c.TimeoutMs)
 			}
 			if e.Kind == "finish-ok" {
@@ -290,9 +298,16 @@ func monitor(c0 *simCase, evs []event, retT int64) string {
 	if cancelT >= 0 && (decided < 0 || cancelT < decided) {
 		decided = cancelT
 	}
+	// (a worker held up by a stubborn attempt takes its next target when that attempt comes back)
+	freed := map[int64]bool{}
+	for i := range evs {
+		if e := &evs[i]; (e.Kind == "finish-ok" || e.Kind == "finish-err") && strings.HasPrefix(c.Script[e.K], "s") {
+			freed[e.T] = true
+		}
+	}
 	for i := range evs {
 		e := &evs[i]
-		if e.Kind == "start" && e.Late && decided >= 0 && e.T > decided {
+		if e.Kind == "start" && e.Late && decided >= 0 && e.T > decided && !freed[e.T] {
 			return fmt.Sprintf("attempt %d began %dms after the outcome was decided (at %dms): targets are still being paced although nobody waits for them - Dial's goroutines outlive the call", e.K, e.T-decided, decided)
 		}
 	}
@@ -410,6 +425,29 @@ func TestTraces(t *testing.T) {
 			c.CancelMs = 45000
 		}
 	})
+	// options given as negative numbers mean "the default" just like zero
+	family("negative", []string{"hang", "ok:0", "fail:50", "ok:5000"}, 4, func(cur []string) bool { return len(cur) == 4 }, 4, func(c *simCase) {
+		c.Workers, c.DelayMs, c.TimeoutMs = -1, -250, -30000
+		switch c.CancelMs % 3 {
+		case 0:
+			c.DelayMs = 100
+		case 1:
+			c.TimeoutMs = 1000
+		}
+		if c.CancelMs == 1500 {
+			c.CancelMs = 45000
+		}
+	})
+	// attempts that do not react to their context: the outcome is still decided, and Dial still returns,
+	// at the first success / at the caller's cancellation, not when the stragglers come back
+	family("stubborn", []string{"sok:300", "sfail:300", "ok:50", "fail:0", "sok:2000"}, 3, func(cur []string) bool {
+		for _, s := range cur {
+			if strings.HasPrefix(s, "s") {
+				return true
+			}
+		}
+		return false
+	}, 2, nil)
 	reps := 2
 	if thorough {
 		reps = 5
